@@ -103,6 +103,12 @@ def t_aggregates_and_nulls():
     r = one(s, "SELECT SUM(st = 'Ready') n, CAST(COALESCE(SUM(a * (st = 'Ready')), 0) AS SIGNED) m FROM t")
     assert r == {'n': Decimal(2), 'm': 1} and type(r['m']) is int, r
     assert s.query('SELECT g, SUM(a) s FROM t GROUP BY g HAVING s > 1') == [{'g': 2, 's': Decimal(5)}]
+    # result type of COALESCE() over a DOUBLE expression is DOUBLE even when the integer literal is chosen
+    s.execute('CREATE TABLE r (u BIGINT, rate DOUBLE)')
+    v = val(s, 'SELECT COALESCE(SUM(u * rate), 0) FROM r')
+    assert v == 0.0 and type(v) is float, v
+    v = val(s, 'SELECT c FROM (SELECT COALESCE(SUM(u * rate), 0) AS c FROM r) AS x')
+    assert type(v) is float
     assert s.query('SELECT g FROM t WHERE g = 99 GROUP BY g') == []
 
 
@@ -235,12 +241,17 @@ def t_insert_select_same_table_is_buffered():
     e, s = new()
     s.execute('CREATE TABLE t (k INT PRIMARY KEY, v INT)')
     s.execute('INSERT INTO t VALUES (1, 10), (2, 20)')
-    q = 'INSERT INTO t (k, v) SELECT s.k, @n := s.v FROM t AS s ON DUPLICATE KEY UPDATE v = t.v + @n'
+    # nested assignment (the form used by cancel_job_group: -1 * (@x := col)): evaluated only while buffering
+    q = 'INSERT INTO t (k, v) SELECT s.k, 0 + (@n := s.v) FROM t AS s ON DUPLICATE KEY UPDATE v = t.v + @n'
     s.execute(q)
     assert s.query('SELECT k, v FROM t') == [{'k': 1, 'v': 30}, {'k': 2, 'v': 40}]
+    # a select item that IS an assignment is re-executed per row read back from the temporary table
+    # (sql_select.cc, change_to_use_tmp_fields(): "@:=<expression>" is replaced with "@:=<tmp table column>")
+    s.execute('INSERT INTO t (k, v) SELECT s.k, @n := s.v FROM t AS s ON DUPLICATE KEY UPDATE v = t.v + @n')
+    assert s.query('SELECT k, v FROM t') == [{'k': 1, 'v': 60}, {'k': 2, 'v': 80}]
     e.insert_select_same_table_buffered = False      # the switch exposes the streaming alternative
     s.execute(q)
-    assert s.query('SELECT k, v FROM t') == [{'k': 1, 'v': 60}, {'k': 2, 'v': 80}]
+    assert s.query('SELECT k, v FROM t') == [{'k': 1, 'v': 120}, {'k': 2, 'v': 160}]
 
 
 @test
@@ -257,7 +268,7 @@ def t_constraint_errors():
     assert one(s, 'SELECT * FROM p') == {'id': 1, 'name': 'a', 'st': 'open', 'flag': 0}
     raises(errors.IntegrityError, 1062, s.execute, "INSERT INTO p (name) VALUES ('A')")
     raises(errors.IntegrityError, 1048, s.execute, 'INSERT INTO p (name) VALUES (NULL)')
-    raises(errors.IntegrityError, 1364, s.execute, "INSERT INTO p (st) VALUES ('open')")
+    raises(errors.OperationalError, 1364, s.execute, "INSERT INTO p (st) VALUES ('open')")
     raises(errors.DataError, 1265, s.execute, "INSERT INTO p (name, st) VALUES ('b', 'bogus')")
     raises(errors.DataError, 1406, s.execute, "INSERT INTO p (name) VALUES ('toolong')")
     raises(errors.DataError, 1366, s.execute, "INSERT INTO c (id, pid) VALUES ('x', 1)")
@@ -341,6 +352,15 @@ def t_update_semantics():
     assert s.execute('DELETE b FROM b LEFT JOIN a ON a.id = b.aid WHERE a.y = 4').affected == 2
     assert s.execute('UPDATE a SET x = 0 ORDER BY id DESC LIMIT 1').affected == 1
     assert [r['x'] for r in s.query('SELECT x FROM a')] == [3, 0]
+    # Optimizer dependent corner (sql_update.cc Query_result_update): when the first table of the chosen join order
+    # is itself updated "on the fly", later tables' SET expressions see its NEW values.  Off by default; switchable.
+    s.execute('INSERT INTO b VALUES (7, 1, 0)')
+    e.multi_update_on_the_fly = True
+    s.execute('UPDATE a INNER JOIN b ON b.aid = a.id SET a.x = a.x + 1, b.z = a.x WHERE a.id = 1')
+    assert val(s, 'SELECT x FROM a WHERE id = 1') == 4 and val(s, 'SELECT z FROM b WHERE id = 7') == 4
+    e.multi_update_on_the_fly = False
+    s.execute('UPDATE a INNER JOIN b ON b.aid = a.id SET a.x = a.x + 1, b.z = a.x WHERE a.id = 1')
+    assert val(s, 'SELECT x FROM a WHERE id = 1') == 5 and val(s, 'SELECT z FROM b WHERE id = 7') == 4
 
 
 @test
@@ -386,6 +406,14 @@ def t_transactions():
               'IF ok THEN COMMIT; SELECT 0 AS rc; ELSE ROLLBACK; SELECT 1 AS rc; END IF; END')
     assert s.query('CALL tx(0)') == [{'rc': 1}] and val(s, 'SELECT COUNT(*) FROM t WHERE k = 20') == 0
     assert s.query('CALL tx(1)') == [{'rc': 0}] and val(s, 'SELECT COUNT(*) FROM t WHERE k = 20') == 1
+    # Manual 15.3.1: in a READ ONLY transaction writes (and SELECT ... FOR UPDATE, which takes write locks) fail with
+    # error 1792; LOCK IN SHARE MODE is allowed.
+    s.execute('START TRANSACTION READ ONLY')
+    raises(errors.OperationalError, 1792, s.execute, 'DELETE FROM t')
+    raises(errors.OperationalError, 1792, s.execute, 'SELECT k FROM t FOR UPDATE')
+    assert len(s.query('SELECT k FROM t LOCK IN SHARE MODE')) == 4
+    s.execute('COMMIT')
+    assert s.execute('DELETE FROM t WHERE k = 20').affected == 1
 
 
 @test
@@ -1206,6 +1234,69 @@ def t_smoke_batch_lifecycle():
     eng, t_sched, t_complete = asyncio.run(_smoke())
     print(f'   smoke: {eng.stats["statements"]} client statements; CALL schedule_job {t_sched * 1e3:.2f} ms, '
           f'CALL mark_job_complete {t_complete * 1e3:.2f} ms (first executions, include planning)')
+
+
+@test
+def t_performance():
+    # steady-state interpreter cost on a database with a 50-job chain (job j depends on job j-1)
+    import statistics
+    e = batch_engine()
+    schema.seed_minimal(e, n_tokens=4)
+    s = e.connect()
+    now, n = 1000, 50
+    ins = lambda table, cols, vals: s.execute(   # noqa: E731
+        f"INSERT INTO {table} ({', '.join(cols)}) VALUES ({', '.join(['%s'] * len(cols))})", vals)
+    bid = ins('batches', ['userdata', 'user', 'billing_project', 'n_jobs', 'time_created', 'token', 'state',
+                          'format_version', 'migrated_batch'], ('{}', 'test', 'test', 0, now, 't', 'complete', 7, 1)).lastrowid
+    jg = ['batch_id', 'job_group_id', '`user`', 'state', 'n_jobs', 'time_created', 'update_id']
+    ins('job_groups', jg, (bid, 0, 'test', 'complete', 0, now, None))
+    ins('batch_updates', ['batch_id', 'update_id', 'token', 'start_job_group_id', 'n_job_groups', 'start_job_id', 'n_jobs',
+                          'committed', 'time_created'], (bid, 1, 'u', 1, 1, 1, n, 0, now))
+    ins('job_groups', jg, (bid, 1, 'test', 'complete', 0, now, 1))
+    for g, a, lvl in ((0, 0, 0), (1, 1, 0), (1, 0, 1)):
+        ins('job_group_self_and_ancestors', ['batch_id', 'job_group_id', 'ancestor_id', 'level'], (bid, g, a, lvl))
+    for g in (0, 1):
+        ins('job_groups_n_jobs_in_complete_states', ['id', 'job_group_id'], (bid, g))
+    for j in range(1, n + 1):
+        ins('jobs', ['batch_id', 'job_id', 'update_id', 'job_group_id', 'state', 'spec', 'always_run', 'cores_mcpu',
+                     'n_pending_parents', 'inst_coll', 'n_max_attempts'],
+            (bid, j, 1, 1, 'Ready' if j == 1 else 'Pending', '{}', 0, 1000, 0 if j == 1 else 1, 'standard', 20))
+        ins('jobs_telemetry', ['batch_id', 'job_id', 'time_ready'], (bid, j, None))
+        if j > 1:
+            ins('job_parents', ['batch_id', 'job_id', 'parent_id'], (bid, j, j - 1))
+    s.execute('INSERT INTO job_groups_inst_coll_staging (batch_id, update_id, job_group_id, inst_coll, token, n_jobs, '
+              'n_ready_jobs, ready_cores_mcpu) SELECT %s, 1, ancestor_id, %s, 0, %s, 1, 1000 '
+              'FROM job_group_self_and_ancestors WHERE batch_id = %s AND job_group_id = 1', (bid, 'standard', n, bid))
+    s.execute('INSERT INTO job_group_inst_coll_cancellable_resources (batch_id, update_id, job_group_id, inst_coll, token, '
+              'n_ready_cancellable_jobs, ready_cancellable_cores_mcpu) SELECT %s, 1, ancestor_id, %s, 0, 1, 1000 '
+              'FROM job_group_self_and_ancestors WHERE batch_id = %s AND job_group_id = 1', (bid, 'standard', bid))
+    assert s.query('CALL commit_batch_update(%s, 1, %s)', (bid, now)) == [{'rc': 0}]
+    ins('instances', ['name', 'state', 'token', 'cores_mcpu', 'time_created', 'last_updated', 'version', 'location',
+                      'inst_coll', 'machine_type', 'preemptible'],
+        ('i1', 'active', 't', 16000000, now, now, 1, 'z', 'standard', 'm', 1))
+    ins('instances_free_cores_mcpu', ['name', 'free_cores_mcpu'], ('i1', 16000000))
+    rids = [r['resource_id'] for r in s.query('SELECT resource_id FROM resources')][:3]
+    ts, tc, n0 = [], [], e.stats['statements']
+    t_all = time.perf_counter()
+    for j in range(1, n + 1):
+        t0 = time.perf_counter()
+        assert s.query('CALL schedule_job(%s, %s, %s, %s)', (bid, j, 'a', 'i1'))[0]['rc'] == 0
+        ts.append(time.perf_counter() - t0)
+        for r in rids:
+            s.execute('INSERT INTO attempt_resources (batch_id, job_id, attempt_id, resource_id, deduped_resource_id, '
+                      'quantity) VALUES (%s, %s, %s, %s, %s, %s) ON DUPLICATE KEY UPDATE quantity = quantity',
+                      (bid, j, 'a', r, r, 5))
+        t0 = time.perf_counter()
+        rv = s.query('CALL mark_job_complete(%s, %s, %s, %s, %s, %s, %s, %s, %s, %s)',
+                     (bid, j, 'a', 'i1', 'Success', '{}', now + 1, now + 100, 'finished', now + 100))
+        tc.append(time.perf_counter() - t0)
+        assert rv[0]['rc'] == 0
+    t_all = time.perf_counter() - t_all
+    assert val(s, 'SELECT state FROM batches WHERE id = %s', (bid,)) == 'complete'
+    ms, mc = statistics.median(ts) * 1e3, statistics.median(tc) * 1e3
+    print(f'   perf: CALL schedule_job median {ms:.2f} ms, CALL mark_job_complete median {mc:.2f} ms '
+          f'(50-job batch, plans cached); {e.stats["statements"] - n0} client statements in {t_all * 1e3:.0f} ms')
+    assert mc < 25, mc
 
 
 def main():
